@@ -55,6 +55,14 @@ def program(cex: dict) -> str:
                  "    let key = rcgen::KeyPair::generate().unwrap();\n    let cert = p.self_signed(&key).unwrap();\n"
                  f"    let needle: Vec<u8> = vec![{needle}];\n"
                  "    assert!(cert.der().windows(needle.len()).any(|w| w == &needle[..]), \"attribute value not found under its string tag\");\n")
+    if op == "subtree-dirname":
+        body = ("    let mut p = rcgen::CertificateParams::default();\n    let mut name = DistinguishedName::new();\n"
+                "    name.push(DnType::CommonName, \"x\");\n    p.is_ca = rcgen::IsCa::Ca(rcgen::BasicConstraints::Unconstrained);\n"
+                "    p.name_constraints = Some(rcgen::NameConstraints { permitted_subtrees: vec![rcgen::GeneralSubtree::DirectoryName(name)], excluded_subtrees: vec![] });\n"
+                "    let key = rcgen::KeyPair::generate().unwrap();\n    let cert = p.self_signed(&key).unwrap();\n    let der: &[u8] = cert.der();\n"
+                "    // GeneralSubtree { base [4] ... }: directoryName is a CHOICE, so [4] must be EXPLICIT: A4 len 30 len { RDNs }\n"
+                "    let pos = der.windows(2).position(|w| w[0] == 0xa4 && w[1] < 0x80).expect(\"directoryName not found\");\n"
+                "    assert_eq!(der[pos + 2], 0x30, \"directoryName [4] is not explicitly tagged: the Name SEQUENCE tag is missing\");\n")
     return PRELUDE + "fn main() {\n" + body + "    println!(\"replay-ok\");\n}\n"
 
 
